@@ -359,6 +359,7 @@ SRCTIE = {
       "ReaderCursor.move_on_key_greater_than_or_equal_to", "ReaderCursor.move_on_key_lower_than_or_equal_to", "ReaderCursor.move_on_key_equal_to", "IndexBlockCursor.initial_index_blocks", "IndexBlockCursor.iter_index_blocks", "IndexBlockCursor.recursive_index_block.recursive", "IndexBlockCursor.recursive_index_block", "Reader.new", "Reader.into_cursor", "Metadata", "Metadata.read_from", "RangeIter", "RangeIter.next", "RevRangeIter", "RevRangeIter.next", "PrefixIter", "PrefixIter.next",
                                                 "move_on_last_prefix", "RevPrefixIter", "RevPrefixIter.next", "advance_key", "end_contains", "start_contains", "map_bound", "RangeIter", "RangeIter.new", "RevRangeIter", "RevRangeIter.new", "PrefixIter", "PrefixIter.new",
                                               "RevPrefixIter", "RevPrefixIter.new"]),
+    "Grenad.SrcTie.MergerSim": ("SrcMerger,SrcMergerIter", ["Entry", "Entry.cmp", "MergerIter", "MergerIter.next", "Merger", "Merger.into_stream_merger_iter"]),
     "Grenad.SrcTie.Compression": ("SrcCompression", ["CompressionType", "compress", "decompress"]),
     "Grenad.SrcTie.MergerIter": ("SrcMerger,SrcMergerIter", ["Entry", "Entry.cmp", "MergerIter", "MergerIter.next", "Merger", "Merger.into_stream_merger_iter"]),
     "Grenad.SrcTie.MergerIterNext": ("SrcMerger,SrcMergerIter", ["Entry", "Entry.cmp", "MergerIter", "MergerIter.next", "Merger", "Merger.into_stream_merger_iter"]),
@@ -374,7 +375,7 @@ for _p, _mods in {"C14": ["Varint", "Block", "C14Src"], "C13": ["Meta", "C13Src"
                   "C01": ["BlockWriter", "Varint", "Meta", "Block", "BlockCursor", "TBlockSrc", "BuiltSrc", "NoPanic", "EndToEnd", "BlockLoad", "WriterBlock", "WriterLemmas", "WriterCut", "WriterInsert", "WriterFinish", "WriterRun", "WriterBounds", "WriterBuild", "Compression", "ReaderCursorTie", "ReaderCursorTieStep", "ReaderE2E", "ReaderE2EIdx", "ReaderE2EGen", "ReaderE2ESmoke", "ReaderTotalBase", "ReaderTotalIdx", "ReaderTotal", "ReaderTotalSmoke", "FullRoundTrip", "ReaderAccessors"],
                   "C02": ["BlockCursor", "Smoke", "TBlockSrc", "NoPanic", "IndexCursorLoad", "IndexCursorIter", "IndexCursor", "ReaderCursorTie", "ReaderCursorTieStep", "ReaderE2E", "ReaderE2EIdx", "ReaderE2EGen", "ReaderTotal"],
                   "C03": ["IndexCursorLoad", "IndexCursorInit", "IndexCursorIter", "IndexCursorRec", "IndexCursor", "IndexCursorSmoke", "ReaderCursorTie", "ReaderCursorTieStep", "ReaderE2E", "ReaderE2EIdx", "ReaderE2EGen", "ReaderE2ESmoke", "ReaderTotalBase", "ReaderTotalIdx", "ReaderTotal", "ReaderTotalSmoke"],
-                  "C16": ["IndexCursorLoad", "IndexCursorInit", "IndexCursorIter", "IndexCursorRec", "IndexCursor", "ReaderCursorTie", "ReaderCursorTieStep"], "C06": ["Merger", "MergerIter", "MergerIterNext", "MergerIterStep", "MergerIterRun", "MergerBuilder", "MergeWrite"], "C11": ["CountWrite"], "C08": ["Sorter", "SorterInsert", "SorterBuilder", "EntriesInsert"], "C07": ["Sorter", "SorterInsert", "EntriesInsert"], "C17": ["Sorter", "EntriesInsert"]}.items():
+                  "C16": ["IndexCursorLoad", "IndexCursorInit", "IndexCursorIter", "IndexCursorRec", "IndexCursor", "ReaderCursorTie", "ReaderCursorTieStep"], "C06": ["Merger", "MergerIter", "MergerIterNext", "MergerIterStep", "MergerIterRun", "MergerBuilder", "MergeWrite", "MergerSim"], "C11": ["CountWrite"], "C08": ["Sorter", "SorterInsert", "SorterBuilder", "EntriesInsert"], "C07": ["Sorter", "SorterInsert", "EntriesInsert"], "C17": ["Sorter", "EntriesInsert"]}.items():
     PROPS[_p]["srctie"] = ["Grenad.SrcTie." + m for m in _mods]
 
 
